@@ -4,29 +4,11 @@ Helper lemmas for C09/C11: the pest Pratt loop (`Rooc/Syntax/Pratt.lean`) on ite
 needed ones"; `pratt_roundtrip : IR t items → prattParse items = .ok t`.
 -/
 import Rooc.Syntax.Parse
+import Rooc.Syntax.Doc
 namespace Rooc.Syntax.Proofs
-open Rooc Rooc.Syntax
+open Rooc Rooc.Syntax Rooc.Syntax.Doc
 
-/-! ### the documented table -/
-def docLevel : BinOp → Nat
-  | .implies | .iff => 1
-  | .or => 2
-  | .xor => 3
-  | .and => 4
-  | .add | .sub => 5
-  | .mul | .div => 6
-def docRightAssoc : BinOp → Bool
-  | .implies => true
-  | _ => false
-def docRule : BinOp → String
-  | .add => "add" | .sub => "sub" | .mul => "mul" | .div => "div" | .and => "and_op" | .or => "or_op"
-  | .xor => "xor_op" | .implies => "implies_op" | .iff => "iff_op"
-def docUnRule : UnOp → String
-  | .neg => "neg" | .not => "not_op"
-
-def lbpD (o : BinOp) : Nat := 10 + 10 * docLevel o
-def rbpD (o : BinOp) : Nat := if docRightAssoc o then lbpD o - 1 else lbpD o
-def prefixD : Nat := 80
+/-! ### the documented table (`Rooc/Syntax/Doc.lean`) against the regenerated one -/
 
 theorem getOp_doc (o : BinOp) :
     getOp (docRule o) = some (if docRightAssoc o then .inR else .inL, lbpD o) := by
@@ -75,15 +57,6 @@ theorem expr_of_nud (f r : Nat) (items rest : List Item) (lhs : PExp)
   simp [expr, hn]
 
 /-! ### renderings at item level and the round trip -/
-
-/-- the parentheses the parser NEEDS: left child `o'` under `o` iff `rbp o' < lbp o`,
-right child iff `lbp o' ≤ rbp o` -/
-def needParenLeft (o : BinOp) : PExp → Bool
-  | .bin o' _ _ => decide (rbpD o' < lbpD o)
-  | _ => false
-def needParenRight (o : BinOp) : PExp → Bool
-  | .bin o' _ _ => decide (lbpD o' ≤ rbpD o)
-  | _ => false
 
 /-- `IR t items`: `items` renders `t`; an operand is either a single (parenthesised / atomic) leaf pair
 or is spliced in bare, which is allowed only where the parser does not need parentheses. The operand
